@@ -109,6 +109,7 @@ class _TabulationSection(object):
 
   _target_synonyms = {
     'lammps_eam_alloy' : 'setfl',
+    'LAMMPS_eam_alloy' : 'setfl',
     'DL_POLY' : 'DLPOLY'
   }
 
